@@ -388,13 +388,24 @@ func runC13(r *Report, tier string) {
 		last := ""
 		// the text is the bare assertion value.(string) or the value of a comma-ok assertion
 		for _, S := range []*Term{{Op: "typeassert", S: "string", Args: []*Term{V}}, {Op: "res", S: "0", Args: []*Term{{Op: "typeassert", S: "string,ok", Args: []*Term{V}}}}} {
-			miss, _ := fs.firstMissing([]factPat{
-				fp("!binop<==>(index(%S, 0), 32)"),
-				fp("!binop<==>(index(%S, binop<->(len(%S), 1)), 32)"),
-				fp("binop<==>(call<strings.Count>(%S, \"/\"), 1)"),
-			}, bindings{"S": S})
+			b := bindings{"S": S}
+			anyOf := func(what string, pats ...string) string {
+				for _, pt := range pats {
+					if len(fs.matchAll([]factPat{fp(pt)}, b)) > 0 {
+						return ""
+					}
+				}
+				return what
+			}
+			miss := anyOf("the leading-space test", "!binop<==>(index(%S, 0), 32)", "!call<strings.HasPrefix>(%S, \" \")")
+			if miss == "" {
+				miss = anyOf("the trailing-space test", "!binop<==>(index(%S, binop<->(len(%S), 1)), 32)", "!call<strings.HasSuffix>(%S, \" \")")
+			}
+			if miss == "" {
+				miss = anyOf("exactly one '/'", "binop<==>(call<strings.Count>(%S, \"/\"), 1)")
+			}
 			if miss == "" && !fs.holdsNonEmpty(S) {
-				miss = "the non-empty test"
+				miss = anyOf("the non-empty test", "!binop<==>(%S, \"\")", "!binop<==>(\"\", %S)")
 			}
 			if miss == "" {
 				return ""
@@ -557,6 +568,10 @@ func runC13(r *Report, tier string) {
 			fs := factSet{}
 			for _, c := range p.conds {
 				fs.add(c)
+				// presence flags carried in a small struct built by a helper
+				if e := P.expandStructCalls(c.Pred); !e.eq(c.Pred) {
+					fs.add(normFact(e, c.Val))
+				}
 			}
 			if k, _ := P.classifyErr(p.results()[0], fs); k == exitFailure {
 				continue
